@@ -39,7 +39,8 @@ def main():
                 print(rows[-1], flush=True)
         finally:
             sh('git -C %s checkout -- .' % REPO)
-    with open(os.path.join(V, 'seeded', 'RESULTS.md'), 'w') as f:
+    # a partial run (seed ids on the command line) does not overwrite the committed table
+    with open(os.path.join(V, 'seeded', 'RESULTS.md' if not only else 'RESULTS.partial.md'), 'w') as f:
         f.write('# Seeded changes vs. the quick checks (tools/verify_seeds.py)\n\n| seed | check | result (roles) | s |\n|---|---|---|---|\n')
         for r in rows:
             f.write('| %s | %s | %s | %s |\n' % r)
